@@ -371,14 +371,39 @@ def run_special(job, scratch, repo, verif, goenv, tier, seed):
         if key in seen:
             continue
         seen.add(key)
-        model = dict(in_len=v["model"].get("in_len", 0), c=v["model"].get("c", 0) or 0x1234, kernel=kernels.get(fn, 0), same=1 if same else 0)
+        base_len = v["model"].get("in_len", 0)
+        # the solver's (minimal) length first; if the induction scheme could only report
+        # an unproved VC (e.g. a loop counter that is no longer a linear induction
+        # variable), the same kernel is also tried natively at a few larger lengths
+        probes = [base_len] + [l for l in (64, 96, 8192, 8224, 8256, 65536, 65568, 131072, 131104) if l != base_len]
         os.makedirs(os.path.join(verif, "replays", "C09"), exist_ok=True)
-        cpath = os.path.join(verif, "replays", "C09", "asm-%s%s-%d.json" % (fn, "-same" if same else "", len(seen)))
-        json.dump(dict(harness="C09_asm_replay", label=v["label"], kind="assert", model=model, solver_model=v["model"]), open(cpath, "w"), indent=1)
-        rr = check.native_replay(dict(pkg="gf2p16", harness="C09_asm_replay"), cpath, scratch)
-        sp["replays"] += 1
-        if rr.get("fails") or rr.get("panic"):
-            sp["violations"].append(dict(label=v["label"] + " [native: " + "; ".join(rr.get("fails") or [str(rr.get("panic"))[:80]]) + "]", replay=os.path.relpath(cpath, verif)))
+        hit = None
+        for n in probes:
+            model = dict(in_len=n, c=v["model"].get("c", 0) or 0x1234, kernel=kernels.get(fn, 0), same=1 if same else 0)
+            cpath = os.path.join(verif, "replays", "C09", "asm-%s%s-%d.json" % (fn, "-same" if same else "", len(seen)))
+            json.dump(dict(harness="C09_asm_replay", label=v["label"], kind="assert", model=model, solver_model=v["model"]), open(cpath, "w"), indent=1)
+            rr = check.native_replay(dict(pkg="gf2p16", harness="C09_asm_replay"), cpath, scratch)
+            sp["replays"] += 1
+            if rr.get("fails") or rr.get("panic"):
+                hit = (n, rr, cpath)
+                break
+        if hit:
+            n, rr, cpath = hit
+            sp["violations"].append(dict(label=v["label"] + " [native, in_len=%d: " % n + "; ".join(rr.get("fails") or [str(rr.get("panic"))[:80]]) + "]", replay=os.path.relpath(cpath, verif)))
         else:
-            sp["inconclusive"].append("asmsym counterexample did not reproduce natively: %s (%s)" % (v["label"], json.dumps(rr)[:200]))
+            sp["inconclusive"].append("asmsym counterexample did not reproduce natively at any probed length: %s" % v["label"])
+    # translator validation of asmsym itself: concrete execution vs the real assembly
+    cases = os.path.join(scratch, "asm_cases.json")
+    r = subprocess.run([os.path.join(verif, "engine", "bin", "asmsym"), "-repo", repo, "-validate", cases, "-seed", str(seed)], stdout=subprocess.PIPE, stderr=subprocess.STDOUT, text=True, env=goenv)
+    if r.returncode != 0 or not os.path.exists(cases):
+        sp["inconclusive"].append("asmsym -validate failed: " + r.stdout[-300:])
+    else:
+        dummy = os.path.join(scratch, "asm_validate.json")
+        json.dump(dict(harness="C09_asm_validate", model={}), open(dummy, "w"))
+        rr = check.native_replay(dict(pkg="gf2p16", harness="C09_asm_validate"), dummy, scratch, extra_env=dict(VERIF_ASM_CASES=cases))
+        if rr.get("fails") or rr.get("panic") or rr.get("error") or rr.get("assume_failed"):
+            sp["inconclusive"].append("asmsym's instruction semantics disagree with the real assembly on concrete inputs: " + json.dumps(rr)[:300])
+        else:
+            sp["replays"] += 12
+            sp["samples"].append("[validation] 12 concrete runs (4 kernels x 3 lengths, seeded inputs) of the disassembled instruction list through asmsym equal the real assembly's outputs")
     return dict(job=job, special=sp, wall=time.time() - t0)
